@@ -9,7 +9,7 @@ jobs=8; tier=quick
 while getopts "j:t:" o; do case $o in j) jobs=$OPTARG;; t) tier=$OPTARG;; esac; done
 shift $((OPTIND-1))
 cd /verif || exit 2
-seeds=("$@"); [ ${#seeds[@]} -eq 0 ] && seeds=($(ls seeded))
+seeds=("$@"); [ ${#seeds[@]} -eq 0 ] && seeds=($(cd seeded && ls -d C*-*))
 out=/tmp/seedsweep; rm -rf $out; mkdir -p $out
 one() {
   s=$1; tier=$2; id=${s%%-*}
